@@ -133,8 +133,8 @@ def generators(ctx: Ctx) -> None:
         ("generate_brownian", st.generate_brownian, (0.0,), (0.3,), ["real"], [{}, {"sigma": 2.0, "mu": 1.0, "dt": 0.25}, {"sigma": 0.0}]),
         ("generate_geometric_brownian", st.generate_geometric_brownian, (1.0,), (1.5,), ["positive"], [{}, {"sigma": 1.5, "dt": 0.25}, {"sigma": 0.0}]),
         ("generate_heston", st.generate_heston, (1.0, 0.04), (1.5, 0.09), ["positive", "nonneg"], [{}, {"sigma": 1.0, "theta": 0.01, "kappa": 0.5}]),
-        ("generate_cir", st.generate_cir, (0.04,), (0.03,), ["nonneg"], [{}, {"sigma": 1.0, "theta": 0.005, "kappa": 0.3}, {"sigma": 0.0}]),
-        ("generate_vasicek", st.generate_vasicek, (0.04,), (0.03,), ["real"], [{}, {"sigma": 0.5, "kappa": 3.0, "theta": 0.1}, {"sigma": 0.0}]),
+        ("generate_cir", st.generate_cir, (0.04,), (0.03,), ["nonneg"], [{}, {"sigma": 1.0, "theta": 0.005, "kappa": 0.3}, {"sigma": 0.0}, {"kappa": 5.0, "dt": 1 / 12}]),
+        ("generate_vasicek", st.generate_vasicek, (0.04,), (0.03,), ["real"], [{}, {"sigma": 0.5, "kappa": 3.0, "theta": 0.1}, {"sigma": 0.0}, {"kappa": 5.0, "dt": 1 / 12}]),
         ("generate_merton_jump", st.generate_merton_jump, (1.0,), (1.5,), ["positive"], [{}, {"jump_per_year": 300.0, "jump_std": 0.2}, {"sigma": 0.0, "jump_per_year": 0.0}]),
         ("generate_kou_jump", st.generate_kou_jump, (1.0,), (1.5,), ["positive"], [{}, {"jump_per_year": 300.0, "jump_mean_up": 0.2}, {"sigma": 0.0, "jump_per_year": 0.0}]),
         ("generate_rough_bergomi", st.generate_rough_bergomi, (1.0, 0.04), (1.5, 0.09), ["positive", "nonneg"], [{}, {"eta": 3.0}]),
@@ -150,22 +150,32 @@ def generators(ctx: Ctx) -> None:
             else:
                 default_eff = default
             for n in (1, 3):
-                for T in (1, 2, 5, 21):
+                for T in (1, 2, 5, 21, 300):                  # 300 steps: kappa * dt * n_steps in the hundreds for the fast mean reversions
+                    if T == 300 and n != 1:
+                        continue
                     inits: List[Any] = [None, custom]
                     if len(custom) == 1:
                         inits.append(custom[0])                       # the documented scalar form
                         if name in ("generate_brownian", "generate_cir", "generate_vasicek"):
                             inits += [0.0, (0.0,)]                     # an admissible zero initial state, scalar and tuple
                     for init in inits:
-                        for dtype in (torch.float32, torch.float64):
-                            detail = {"generator": name, "n_paths": n, "n_steps": T, "init_state": init, "dtype": str(dtype), "params": kw}
+                        # the requested dtype under both global defaults (a request NARROWER than the default must be honoured too)
+                        for gdef, dtype in ((torch.float32, torch.float32), (torch.float32, torch.float64), (torch.float64, torch.float32), (torch.float64, torch.float64)):
+                            if gdef == torch.float64 and (T not in (2, 21) or init is not None):
+                                continue
+                            detail = {"generator": name, "n_paths": n, "n_steps": T, "init_state": init, "dtype": str(dtype), "default_dtype": str(gdef), "params": kw}
                             try:
                                 args = {"dtype": dtype, **kw}
                                 if init is not None:
                                     args["init_state"] = init
                                 with warnings.catch_warnings():
                                     warnings.simplefilter("ignore")
-                                    out = fn(n, T, **args)
+                                    saved_default = torch.get_default_dtype()
+                                    torch.set_default_dtype(gdef)
+                                    try:
+                                        out = fn(n, T, **args)
+                                    finally:
+                                        torch.set_default_dtype(saved_default)
                             except RecursionError:
                                 ctx.violation(f"generator:{name}:recursion", f"{name} does not terminate (RecursionError)", detail)
                                 continue
